@@ -377,9 +377,9 @@ func checkC14(c *Ctx) {
 			}
 		}
 	}
-	ruleDispatch(c, dv, "R14.5", true, false)                   // every press and release reaches the held-key bookkeeping
+	ruleDispatch(c, dv, "R14.5", true, false)                     // every press and release reaches the held-key bookkeeping
 	c.importRules(noSharedStateRules, []string{"R16.5"}, "R14.7") // the held-key set of a device starts empty: nothing carried over from another device or an earlier attach of the same one
-	c.importRules(configIntactRules, []string{"R3.7"}, "R14.6") // the exit sequence compared against is the parsed one
+	c.importRules(configIntactRules, []string{"R3.7"}, "R14.6")   // the exit sequence compared against is the parsed one
 	c.MinCount("R14.1", 3)
 	c.MinCount("R14.2", 2)
 	c.MinCount("R14.3", 1)
